@@ -1,8 +1,12 @@
 """E3 - reference evaluator for abstract expression trees.
 
-Strict: an erroring sub-term makes the whole evaluation undefined (raises
-Undef).  Reading-parametric (see DESIGN.md section 6):
+An erroring sub-term makes the evaluation undefined (raises Undef).
+Reading-parametric (see DESIGN.md section 6):
 
+  lazy     False: connectives are strict in both operands
+           True : and / or / implies do not evaluate a right operand that
+                  cannot change the result (so `len(d) = 0 or p` is defined
+                  when d is empty even if p would fail)
   arith    'exact' (rationals)  |  'float' (python int/float, what constant
            folding inside the implementation computes)
   setmode  'set' (mathematical set)  |  'bag' (listed elements)
@@ -24,15 +28,18 @@ class Undef(Exception):
 
 
 class EvalConfig:
-    __slots__ = ('arith', 'setmode')
+    __slots__ = ('arith', 'setmode', 'lazy')
 
-    def __init__(self, arith='exact', setmode='set'):
+    def __init__(self, arith='exact', setmode='set', lazy=False):
         self.arith = arith
         self.setmode = setmode
+        self.lazy = lazy  # and / or / implies evaluate their right operand only if the left one does not decide
 
 
 EXACT_SET = EvalConfig('exact', 'set')
-READINGS = tuple(EvalConfig(a, s) for a in ('exact', 'float') for s in ('set', 'bag'))
+# the first reading is the strictest (fewest defined inputs); a mismatch counts only if it
+# persists under every reading
+READINGS = tuple(EvalConfig(a, s, lz) for lz in (False, True) for a in ('exact', 'float') for s in ('set', 'bag'))
 
 
 def _num(v, cfg):
@@ -204,6 +211,13 @@ def ev(t, env, cfg=EXACT_SET, bound=None):
     if tag == 'bin':
         op = t[1]
         a = ev(t[2], env, cfg, bound)
+        if cfg.lazy and op in ('and', 'or', 'implies') and isinstance(a, bool):
+            if op == 'and' and not a:
+                return False
+            if op == 'or' and a:
+                return True
+            if op == 'implies' and not a:
+                return True
         b = ev(t[3], env, cfg, bound)
         if op in ('and', 'or', 'implies', 'iff'):
             if not (isinstance(a, bool) and isinstance(b, bool)):
